@@ -324,7 +324,7 @@ func (tr *Tools) parseUseTools(mkline *MkLine, createIfAbsent bool, addToUseTool
 	validity := tr.validity(mkline.Basename.String(), addToUseTools)
 	for _, dep := range mkline.ValueFields(value) {
 		name := strings.Split(dep, ":")[0]
-		if createIfAbsent || tr.ByName(name) != nil {
+		if (createIfAbsent || tr.ByName(name) != nil) && tr.IsValidToolName(name) {
 			tr.def(name, "", false, validity, nil)
 			for _, implicitName := range tr.implicitTools(name) {
 				tr.def(implicitName, "", false, validity, nil)
